@@ -45,7 +45,7 @@ fn promo_letter(k: u8) -> u8 {
     }
 }
 
-// @ob id=O13.1a props=C13,C06 tier=quick kind=proof fn="Display for Square" desc="every one of the 64 squares renders as exactly two bytes: file letter a-h then rank digit 1-8"
+// @ob id=O13.1a props=C13 also=C06 tier=quick kind=proof fn="Display for Square" desc="every one of the 64 squares renders as exactly two bytes: file letter a-h then rank digit 1-8"
 #[kani::proof]
 #[kani::unwind(10)]
 fn c13_square_render() {
@@ -98,7 +98,7 @@ fn ascii_input<const N: usize>() -> ([u8; N], usize) {
     (buf, len)
 }
 
-// @ob id=O13.2a props=C13,C07 tier=quick kind=bounded bound="every ASCII string of length 0..=4" fn="FromStr for Square" desc="Square::from_str never panics; it succeeds exactly when the first two bytes are a file letter a-h and a rank digit 1-8, returns that square, and the rendering of the result (O13.1a) is the 2-byte prefix of the input: parse(render(sq)) == sq for all 64 squares"
+// @ob id=O13.2a props=C13 also=C07 tier=quick kind=bounded bound="every ASCII string of length 0..=4" fn="FromStr for Square" desc="Square::from_str never panics; it succeeds exactly when the first two bytes are a file letter a-h and a rank digit 1-8, returns that square, and the rendering of the result (O13.1a) is the 2-byte prefix of the input: parse(render(sq)) == sq for all 64 squares"
 #[kani::proof]
 #[kani::unwind(8)]
 fn c13_square_parse() {
@@ -117,7 +117,7 @@ fn c13_square_parse() {
     }
 }
 
-// @ob id=O13.2b props=C13,C07 tier=quick kind=bounded bound="every ASCII string of length 0..=6" weight=light fn="FromStr for ChessMove" desc="ChessMove::from_str never panics; it succeeds exactly when bytes 0..2 and 2..4 are squares and (length != 5 or byte 4 is one of q r n b); the result has those squares and that promotion (none unless length == 5); the rendering of the result (O13.1b) is a prefix of the input — so parse(render(m)) == m for all 20480 move values"
+// @ob id=O13.2b props=C13 also=C07 tier=quick kind=bounded bound="every ASCII string of length 0..=6" weight=light fn="FromStr for ChessMove" desc="ChessMove::from_str never panics; it succeeds exactly when bytes 0..2 and 2..4 are squares and (length != 5 or byte 4 is one of q r n b); the result has those squares and that promotion (none unless length == 5); the rendering of the result (O13.1b) is a prefix of the input — so parse(render(m)) == m for all 20480 move values"
 #[kani::proof]
 #[kani::unwind(9)]
 fn c13_move_parse() {
@@ -171,14 +171,14 @@ fn parse_total(n: usize) {
     }
 }
 
-// @ob id=O13.3 props=C13,C07 tier=quick kind=bounded bound="every byte string of length 0..=4 that is valid UTF-8 (2-, 3- and 4-byte sequences included)" weight=light fn="FromStr for ChessMove,FromStr for Square" desc="totality on non-ASCII text: neither parser panics on any valid UTF-8 string of up to 4 bytes (char-boundary slicing, chars().last(), Vec<char> indexing)"
+// @ob id=O13.3 props=C13 also=C07 tier=quick kind=bounded bound="every byte string of length 0..=4 that is valid UTF-8 (2-, 3- and 4-byte sequences included)" weight=light fn="FromStr for ChessMove,FromStr for Square" desc="totality on non-ASCII text: neither parser panics on any valid UTF-8 string of up to 4 bytes (char-boundary slicing, chars().last(), Vec<char> indexing)"
 #[kani::proof]
 #[kani::unwind(9)]
 fn c13_parse_total_utf8_4() {
     parse_total(4);
 }
 
-// @ob id=O13.3t props=C13,C07 tier=thorough kind=bounded bound="every valid UTF-8 byte string of length 0..=5" weight=medium fn="FromStr for ChessMove,FromStr for Square" desc="as O13.3 with 5 bytes (covers the length-5 promotion branch with a multi-byte last character)"
+// @ob id=O13.3t props=C13 also=C07 tier=thorough kind=bounded bound="every valid UTF-8 byte string of length 0..=5" weight=medium fn="FromStr for ChessMove,FromStr for Square" desc="as O13.3 with 5 bytes (covers the length-5 promotion branch with a multi-byte last character)"
 #[kani::proof]
 #[kani::unwind(9)]
 fn c13_parse_total_utf8_5() {
